@@ -117,6 +117,20 @@ class Jet1:
     def __abs__(s):
         raise core.HarnessError("abs of jet")
 
+    def __lt__(s, o):
+        return s.v < Jet1.lift(o).v
+
+    def __le__(s, o):
+        return s.v <= Jet1.lift(o).v
+
+    def __gt__(s, o):
+        return s.v > Jet1.lift(o).v
+
+    def __ge__(s, o):
+        return s.v >= Jet1.lift(o).v
+
+    __hash__ = None
+
     def __repr__(s):
         return "Jet1(%r, %r, %r)" % (s.v, s.d, s.dd)
 
